@@ -21,6 +21,8 @@ EOT
 build_mc() {
   gen_overlay
   cd "$HERE/harness" || exit 2
+  # background runs on a snapshot (vp run --with-repo) point the module at that snapshot
+  if [ "$REPO" != /repo ]; then go mod edit -replace "github.com/jrhy/mast=$REPO"; fi
   if [ ! -f go.sum ] || [ "$REPO/go.sum" -nt go.sum ]; then cat "$REPO/go.sum" go.sum.extra 2>/dev/null | sort -u > go.sum; fi
   if go build -overlay "$BUILD/overlay.json" -tags verif -o "$BUILD/mc" ./cmd/mc 2> "$BUILD/build.err"; then
     return 0
